@@ -239,6 +239,10 @@ def fuzz_history(s, hidx, weights, steps=(5, 30), text='plain', timing='any', ri
         msg = gen.rand_message(rng, state, kind, 100 + k, ids, pool=pool, timing=timing,
                                shape_weights=shape_weights, selfref=selfref, rich=rich,
                                blank_carried=blank_carried, other_ro=other_ro, drop=drop)
+        if kind == 'roDelete' and rng.random() < 0.2:
+            # a roDelete whose envelope has no messageID element: it ends the running order all the same
+            import re
+            msg = re.sub(r'\s*<messageID>[^<]*</messageID>', '', msg, count=1)
         if direct and not state.completed and rng.random() < direct:
             ro, err, v, ev = s.step_direct(ro, msg, {'history': hidx, 'step': k, 'direct': True})
         else:
